@@ -387,6 +387,50 @@ theorem C15_generated_bin_heights_sum (ideal_ : Nat → Bool → Rat) (az : List
     have hc := bins_core _ hw az ws hin (hlen ws rfl)
     exact ⟨hc.1, hc.2, hlocs, hbw⟩
 
+/-- **The histogram's bin of a value is the specification's floor index.** For uniform edges `i·bw` a value `a ≥ 0` lies in the half-open bin `[i·bw, (i+1)·bw)` of the
+prelude's `pyHistogram` exactly when `⌊a / bw⌋ = i` — the index `Spec.binIndex` assigns (the driver's `bins` command, which S15-bins runs against the real
+`determine_azimuth_bins`): the regenerated histogram and the hand-written specification bin alike. -/
+theorem C15_bin_membership_is_floor_index (bw a : Rat) (hbw : 0 < bw) (h0 : 0 ≤ a) (i : Nat) :
+    pyInBin a ((i : Rat) * bw, ((i : Rat) + 1) * bw, false) = true ↔ (a / bw).floor.toNat = i := by
+  have hq0 : 0 ≤ a / bw := by
+    rw [Rat.div_def]; exact Rat.mul_nonneg h0 (Rat.le_of_lt (Rat.inv_pos.mpr hbw))
+  have hf0 : 0 ≤ (a / bw).floor := Rat.le_floor_iff.mpr (by simpa using hq0)
+  have e1 : ((i : Rat) * bw ≤ a) ↔ ((i : Int) ≤ (a / bw).floor) := by
+    rw [Rat.le_floor_iff]
+    constructor
+    · intro h
+      have : ((i : Int) : Rat) = (i : Rat) := by norm_cast
+      rw [this]
+      by_cases hlt : a / bw < (i : Rat)
+      · have := (Rat.div_lt_iff hbw).mp hlt
+        exact absurd h (Rat.not_le.mpr this)
+      · exact Rat.not_lt.mp hlt
+    · intro h
+      have : ((i : Int) : Rat) = (i : Rat) := by norm_cast
+      rw [this] at h
+      by_cases hlt : a < (i : Rat) * bw
+      · have := (Rat.div_lt_iff hbw).mpr hlt
+        exact absurd h (Rat.not_le.mpr this)
+      · exact Rat.not_lt.mp hlt
+  have e2 : (a < ((i : Rat) + 1) * bw) ↔ ((a / bw).floor < (i : Int) + 1) := by
+    rw [Rat.floor_lt_iff, Rat.div_lt_iff hbw]
+    have : (((i : Int) + 1 : Int) : Rat) = (i : Rat) + 1 := by push_cast; rfl
+    rw [this]
+  simp only [pyInBin, Bool.and_eq_true, decide_eq_true_eq, Bool.false_eq_true, if_false]
+  rw [e1, e2]
+  omega
+
+/-- the same, stated with `Spec.binIndex` for azimuths in `[0, 180)` -/
+theorem C15_spec_bin_index_is_histogram_bin (w a : Rat) (hbw : 0 < Spec.binWidth w) (h0 : 0 ≤ a) (h1 : a < 180) (i : Nat) :
+    Spec.binIndex w a = some i ↔ pyInBin a ((i : Rat) * Spec.binWidth w, ((i : Rat) + 1) * Spec.binWidth w, false) = true := by
+  rw [C15_bin_membership_is_floor_index _ _ hbw h0]
+  have hn : ¬ (a < 0) := Rat.not_lt.mpr h0
+  have hg : ¬ (a > 180) := Rat.not_lt.mpr (Rat.le_of_lt h1)
+  have hne : (a == 180) = false := by
+    simp only [beq_eq_false_iff_ne, ne_eq]
+    intro h; rw [h] at h1; exact absurd h1 (by decide +kernel)
+  simp [Spec.binIndex, hn, hg, hne]
+
 /-- non-vacuity: the doctest of `determine_azimuth_bins` (4 azimuths, ideal width 90 / ∛4 ≈ 56.7 → 4 bins of 45°) -/
 example : Gen.determine_azimuth_bins (fun _ _ => 567/10) [25, 50, 145, 160] (some [5, 5, 10, 60]) 1 true = (45, [45/2, 135/2, 225/2, 315/2], [5, 5, 0, 70]) := by
   decide +kernel
